@@ -372,6 +372,15 @@ func mapsOf[T any](vs ...map[string]T) []func() map[string]T {
 	return out
 }
 
+// bigMap: n entries with keys <prefix>0 .. <prefix>(n-1)
+func bigMap(prefix string, n int) map[string]int {
+	m := make(map[string]int, n)
+	for i := 0; i < n; i++ {
+		m[fmt.Sprintf("%s%d", prefix, i)] = i + 1
+	}
+	return m
+}
+
 func seqInts(n int) []int {
 	s := make([]int, n)
 	for i := range s {
@@ -460,7 +469,7 @@ func allKindsT(thorough bool) []kind {
 		mkKind("[3]int", cs([3]int{}, [3]int{1, 0, 0}, [3]int{0, 0, 3}, [3]int{1, 2, 3}, [3]int{-1, 2, int(p53)}), func() [3]int { return [3]int{7, 8, 9} }),
 		mkKind("[2]string", cs([2]string{}, [2]string{"a", ""}, [2]string{"", "b"}, [2]string{"a", "b"}), func() [2]string { return [2]string{"s", "t"} }),
 		mkKind("[7]bool", cs([7]bool{}, [7]bool{true}, [7]bool{false, false, false, false, false, false, true}, [7]bool{true, true, true, true, true, true, true}), func() [7]bool { return [7]bool{true, false, true} }),
-		mkKind("map[string]int", mapsOf(nil, map[string]int{}, map[string]int{"a": 1}, map[string]int{"a": 0}, map[string]int{"a": 2}, map[string]int{"b": 1}, map[string]int{"a": 1, "b": 2}, map[string]int{"0": 5}, map[string]int{"0": 5, "1": 6}, map[string]int{"/": 1, "/home": 2}), func() map[string]int { return map[string]int{"k": 7, "0": 8} }),
+		mkKind("map[string]int", mapsOf(bigMap("a", 1000), bigMap("b", 1000), bigMap("a", 600), nil, map[string]int{}, map[string]int{"a": 1}, map[string]int{"a": 0}, map[string]int{"a": 2}, map[string]int{"b": 1}, map[string]int{"a": 1, "b": 2}, map[string]int{"0": 5}, map[string]int{"0": 5, "1": 6}, map[string]int{"/": 1, "/home": 2}), func() map[string]int { return map[string]int{"k": 7, "0": 8} }),
 		mkKind("map[string]string", mapsOf(nil, map[string]string{"a": "x"}, map[string]string{"a": ""}, map[string]string{"a": "y"}, map[string]string{"a": "x", "b": "y"}, map[string]string{"0": "z"}, map[string]string{"é": "✓"}), func() map[string]string { return map[string]string{"k": "seven", "0": "eight"} }),
 		mkKind("map[string]bool", mapsOf(nil, map[string]bool{"a": true}, map[string]bool{"a": false}, map[string]bool{"a": true, "b": false}), func() map[string]bool { return map[string]bool{"k": true} }),
 		mkKind("map[string]float64", mapsOf(nil, map[string]float64{"a": 1.5}, map[string]float64{"a": 0}, map[string]float64{"a": math.Inf(1), "b": -2}), func() map[string]float64 { return map[string]float64{"k": 7} }),
